@@ -828,7 +828,174 @@ fn run_pruned(l: &Loaded, mode: PruneMode) -> (Answer, PruneStats) {
 
 // ---- correspondence: what the hint objects report ------------------------------------------------
 
-/// `(<prop> <op> <(ctx <vid> <field>) | (fcount <eid>)>)`: which operation and which tag a
+// ---- reading a `CandidateValue<FieldValue>` back from its derived `Debug` text ---------------------
+// (the `initial_candidate` of a `DynamicallyResolvedValue` is private; its Debug rendering is not)
+
+struct DebugParser<'a> {
+    s: &'a [u8],
+    i: usize,
+}
+
+impl<'a> DebugParser<'a> {
+    fn ws(&mut self) {
+        while self.i < self.s.len() && (self.s[self.i] == b' ' || self.s[self.i] == b'\n') {
+            self.i += 1;
+        }
+    }
+    fn eat(&mut self, t: &str) -> bool {
+        self.ws();
+        if self.s[self.i..].starts_with(t.as_bytes()) {
+            self.i += t.len();
+            true
+        } else {
+            false
+        }
+    }
+    fn ident(&mut self) -> String {
+        self.ws();
+        let st = self.i;
+        while self.i < self.s.len() && (self.s[self.i].is_ascii_alphanumeric() || self.s[self.i] == b'_') {
+            self.i += 1;
+        }
+        String::from_utf8_lossy(&self.s[st..self.i]).into_owned()
+    }
+    fn number_text(&mut self) -> String {
+        self.ws();
+        let st = self.i;
+        while self.i < self.s.len() && (self.s[self.i].is_ascii_alphanumeric() || matches!(self.s[self.i], b'-' | b'+' | b'.')) {
+            self.i += 1;
+        }
+        String::from_utf8_lossy(&self.s[st..self.i]).into_owned()
+    }
+    fn string(&mut self) -> Option<String> {
+        if !self.eat("\"") {
+            return None;
+        }
+        let text = std::str::from_utf8(&self.s[self.i..]).ok()?;
+        let mut out = String::new();
+        let mut chars = text.char_indices();
+        while let Some((at, c)) = chars.next() {
+            match c {
+                '"' => {
+                    self.i += at + 1;
+                    return Some(out);
+                }
+                '\\' => {
+                    let (_, e) = chars.next()?;
+                    match e {
+                        'n' => out.push('\n'),
+                        'r' => out.push('\r'),
+                        't' => out.push('\t'),
+                        '0' => out.push('\0'),
+                        'u' => {
+                            let mut hexs = String::new();
+                            chars.next()?; // {
+                            for (_, h) in chars.by_ref() {
+                                if h == '}' {
+                                    break;
+                                }
+                                hexs.push(h);
+                            }
+                            out.push(char::from_u32(u32::from_str_radix(&hexs, 16).ok()?)?);
+                        }
+                        other => out.push(other),
+                    }
+                }
+                c => out.push(c),
+            }
+        }
+        None
+    }
+    fn value(&mut self) -> Option<FieldValue> {
+        let id = self.ident();
+        match id.as_str() {
+            "Null" => Some(FieldValue::Null),
+            "Int64" | "Uint64" | "Float64" | "Boolean" | "String" | "Enum" | "List" => {
+                if !self.eat("(") {
+                    return None;
+                }
+                let v = match id.as_str() {
+                    "Int64" => FieldValue::Int64(self.number_text().parse().ok()?),
+                    "Uint64" => FieldValue::Uint64(self.number_text().parse().ok()?),
+                    "Float64" => FieldValue::Float64(self.number_text().parse().ok()?),
+                    "Boolean" => FieldValue::Boolean(self.ident() == "true"),
+                    "String" => FieldValue::String(self.string()?.into()),
+                    "Enum" => FieldValue::Enum(self.string()?.into()),
+                    _ => FieldValue::List(self.list()?.into()),
+                };
+                self.eat(")").then_some(v)
+            }
+            _ => None,
+        }
+    }
+    fn list(&mut self) -> Option<Vec<FieldValue>> {
+        if !self.eat("[") {
+            return None;
+        }
+        let mut out = vec![];
+        loop {
+            if self.eat("]") {
+                return Some(out);
+            }
+            out.push(self.value()?);
+            self.eat(",");
+        }
+    }
+    fn bound(&mut self) -> Option<Bound<FieldValue>> {
+        match self.ident().as_str() {
+            "Unbounded" => Some(Bound::Unbounded),
+            kind @ ("Included" | "Excluded") => {
+                let included = kind == "Included";
+                if !self.eat("(") {
+                    return None;
+                }
+                let v = self.value()?;
+                self.eat(")").then_some(if included { Bound::Included(v) } else { Bound::Excluded(v) })
+            }
+            _ => None,
+        }
+    }
+    fn candidate(&mut self) -> Option<Cand> {
+        match self.ident().as_str() {
+            "Impossible" => Some(CandidateValue::Impossible),
+            "All" => Some(CandidateValue::All),
+            "Single" => {
+                self.eat("(");
+                let v = self.value()?;
+                self.eat(")").then_some(CandidateValue::Single(v))
+            }
+            "Multiple" => {
+                self.eat("(");
+                let v = self.list()?;
+                self.eat(")").then_some(CandidateValue::Multiple(v))
+            }
+            "Range" => {
+                if !(self.eat("(") && self.eat("Range") && self.eat("{") && self.eat("start:")) {
+                    return None;
+                }
+                let st = self.bound()?;
+                if !(self.eat(",") && self.eat("end:")) {
+                    return None;
+                }
+                let en = self.bound()?;
+                if !(self.eat(",") && self.eat("null_included:")) {
+                    return None;
+                }
+                let n = self.ident() == "true";
+                (self.eat("}") && self.eat(")"))
+                    .then(|| CandidateValue::Range(trustfall_core::interpreter::verif_candidates::range_new(st, en, n)))
+            }
+            _ => None,
+        }
+    }
+}
+
+fn candidate_from_debug(text: &str) -> Option<Cand> {
+    DebugParser { s: text.as_bytes(), i: 0 }.candidate()
+}
+
+/// `(<prop> <op> <(ctx <vid> <field>) | (fcount <eid>)> <initial candidate>)`: which operation, which tag
+/// and which initial candidate a
 /// `DynamicallyResolvedValue` carries. The fields are private; they are read off the derived `Debug`
 /// rendering (`…, field: <FieldRef>, operation: <Operation>, initial_candidate: …` are its last fields).
 fn dyn_choice_sexp(prop: &str, drv: &DynamicallyResolvedValue<'_>) -> Sexp {
@@ -869,7 +1036,12 @@ fn dyn_choice_sexp(prop: &str, drv: &DynamicallyResolvedValue<'_>) -> Sexp {
     } else {
         Sexp::atom("?")
     };
-    Sexp::list(vec![Sexp::atom(prop), Sexp::atom(op), fref])
+    let initial = text[op_at..]
+        .find(", initial_candidate: ")
+        .and_then(|at| candidate_from_debug(&text[op_at + at + ", initial_candidate: ".len()..]))
+        .map(|c| cand_to_sexp(&c))
+        .unwrap_or_else(|| Sexp::atom("?"));
+    Sexp::list(vec![Sexp::atom(prop), Sexp::atom(op), fref, initial])
 }
 
 /// `(static (<prop> <cand>)…) (dyn (<prop> <op> <tag>)…) (mand <eid>…)` of one hint object; `panic` when a hint
@@ -1137,6 +1309,124 @@ fn tag_cand_cases(rng: &mut Rng, n_random: usize) -> Vec<Case> {
     out
 }
 
+// ---- directed streams over fixed small worlds -----------------------------------------------------
+/// `hints`, `points` and `prune-exec` requests of one hand-built query over a fixed world (skipped when
+/// the frontend rejects the query or the plain run panics).
+fn push_directed(
+    out: &mut Vec<Case>,
+    schema_sexp: &Sexp,
+    data_sexp: &Sexp,
+    schema: &crate::engine::run::LoadedSchema,
+    text: &str,
+    args_text: &str,
+    tags_v: Vec<String>,
+) {
+    let Ok(Ok(q)) = guarded(|| compile(&schema.real, text)) else { return };
+    let ir = ir_to_sexp(&q.ir_query);
+    let hx = Sexp::atom(hex(text.as_bytes()));
+    let Some(args) = Sexp::parse(args_text) else { return };
+    out.push(Case {
+        request: Sexp::call("hints", vec![schema_sexp.clone(), hx.clone(), ir.clone(), args.clone()]),
+        tags: tags_v.clone(),
+    });
+    let five = vec![schema_sexp.clone(), data_sexp.clone(), hx, ir, args];
+    let Ok(Some(Ok(l))) = guarded(|| load5(&five)) else { return };
+    if guarded(|| execute(Arc::new(l.p.adapter()), l.q.clone(), &l.args)).is_err() {
+        return;
+    }
+    let eids: Vec<Sexp> = direct_points(&l).keys().filter(|e| **e != 0).map(|e| Sexp::atom(e.to_string())).collect();
+    let mut pa = five.clone();
+    pa.push(Sexp::call("eids", eids));
+    out.push(Case { request: Sexp::call("points", pa), tags: tags_v.clone() });
+    out.push(Case { request: Sexp::call("prune-exec", five), tags: tags_v });
+}
+
+const NL_SCHEMA: &str = "(schema (types (A obj) (B obj)) (sub (A) (B)) (props (A (id (T Int 0)) (xn (T Int 1)) (xr (T Int 0)) (sn (T String 1)) (sr (T String 0)) (ln (T Int 1 1)) (lr (T Int 0 0))) (B (id (T Int 0)) (y (T Int 1)) (s (T String 1)))) (edges (A (e B (T B 1 0) (params))) (B)) (roots (RA A (T A 1 0) (params))))";
+const NL_DATA: &str = "(data (vertices \
+ (0 A (id (i 0)) (xn (i 2)) (xr (i 2)) (sn (s 62)) (sr (s 62)) (ln (l (i 1) (i 2))) (lr (l (i 2) (i 3)))) \
+ (1 A (id (i 1)) (xn n) (xr (i 5)) (sn n) (sr (s 61)) (ln n) (lr (l))) \
+ (2 A (id (i 2)) (xn (i 3)) (xr (i 1)) (sn (s 61)) (sr (s 63)) (ln (l n (i 3))) (lr (l (i 1)))) \
+ (10 B (id (i 10)) (y n) (s n)) (11 B (id (i 11)) (y (i 1)) (s (s 61))) (12 B (id (i 12)) (y (i 2)) (s (s 62))) \
+ (13 B (id (i 13)) (y (i 3)) (s (s 63))) (14 B (id (i 14)) (y (i 5)) (s n)) (15 B (id (i 15)) (y n) (s (s 62)))) \
+ (adj (0 e (params) (nbrs 10 11 12 13 14 15)) (1 e (params) (nbrs 15 14 13 12 11 10)) (2 e (params) (nbrs 10 12 12 15))) \
+ (starts (RA (params) (nbrs 0 1 2))) (rx))";
+
+/// Nullability of the operands of tag filters: a NULLABLE filtered property with null values in the
+/// data (`y: Int`, `s: String`), operand tags of nullable and of non-nullable type (`Int`/`Int!`,
+/// `String`/`String!`, `[Int]`/`[Int!]!`), every operator that can take such a tag — also `!=` and
+/// `not_one_of`, whose candidates must keep null — alone and in ordered pairs, behind a plain edge, an
+/// `@optional` edge and inside a fold.
+fn nullability_cases() -> Vec<Case> {
+    // (GraphQL operator, protocol name, operand kind: 0 = Int tag, 1 = list tag)
+    let int_ops: [(&str, &str, u8); 7] =
+        [("=", "eq", 0), ("!=", "neq", 0), ("<", "lt", 0), ("<=", "le", 0), (">", "gt", 0), ("one_of", "one_of", 1), ("not_one_of", "not_one_of", 1)];
+    let str_ops: [(&str, &str); 4] = [("=", "eq"), ("!=", "neq"), ("<", "lt"), (">", "gt")];
+    let (Some(schema_sexp), Some(data_sexp)) = (Sexp::parse(NL_SCHEMA), Sexp::parse(NL_DATA)) else { return vec![] };
+    let Some(schema) = load_schema(&schema_sexp) else { return vec![] };
+    let mut out = vec![];
+    let edges = [("e", "plain"), ("e @optional", "optional"), ("e @fold", "fold")];
+    let tag_prop = |kind: u8, nullable: bool| match (kind, nullable) {
+        (0, true) => "xn",
+        (0, false) => "xr",
+        (_, true) => "ln",
+        (_, false) => "lr",
+    };
+    let decl = |props: &[&str]| -> String {
+        let mut seen: Vec<&str> = vec![];
+        for p in props {
+            if !seen.contains(p) {
+                seen.push(p);
+            }
+        }
+        seen.iter().map(|p| format!("{p} @tag(name: \"t{p}\") ")).collect()
+    };
+    let nn = |b: bool| if b { "nullable-tag" } else { "non-null-tag" };
+    for (edge, ekind) in edges {
+        // one tagged filter
+        for (g, n, kind) in int_ops {
+            for nullable in [true, false] {
+                let t = tag_prop(kind, nullable);
+                let text = format!(
+                    "{{ RA {{ {}id @output(name: \"o0\") {edge} {{ y @filter(op: \"{g}\", value: [\"%t{t}\"]) @output(name: \"o1\") }} }} }}",
+                    decl(&[t])
+                );
+                let tags = vec!["tag-nullability".to_string(), "nt:tag-nullability".to_string(), format!("tag-null:{n}:{}:{ekind}", nn(nullable))];
+                push_directed(&mut out, &schema_sexp, &data_sexp, &schema, &text, "(args)", tags);
+            }
+        }
+        for (g, n) in str_ops {
+            for nullable in [true, false] {
+                let t = if nullable { "sn" } else { "sr" };
+                let text = format!(
+                    "{{ RA {{ {}id @output(name: \"o0\") {edge} {{ s @filter(op: \"{g}\", value: [\"%t{t}\"]) @output(name: \"o1\") }} }} }}",
+                    decl(&[t])
+                );
+                let tags = vec!["tag-nullability".to_string(), "nt:tag-nullability".to_string(), format!("tag-null:str-{n}:{}:{ekind}", nn(nullable))];
+                push_directed(&mut out, &schema_sexp, &data_sexp, &schema, &text, "(args)", tags);
+            }
+        }
+        // ordered pairs of tagged filters on `y`
+        for (g1, n1, k1) in int_ops {
+            for (g2, n2, k2) in int_ops {
+                for (a, b) in [(true, false), (false, true), (false, false)] {
+                    let (t1, t2) = (tag_prop(k1, a), tag_prop(k2, b));
+                    let text = format!(
+                        "{{ RA {{ {}id @output(name: \"o0\") {edge} {{ y @filter(op: \"{g1}\", value: [\"%t{t1}\"]) @filter(op: \"{g2}\", value: [\"%t{t2}\"]) @output(name: \"o1\") }} }} }}",
+                        decl(&[t1, t2])
+                    );
+                    let tags = vec![
+                        "tag-nullability".to_string(),
+                        "nt:tag-nullability".to_string(),
+                        format!("tag-null:{n1}-then-{n2}:{}+{}:{ekind}", nn(a), nn(b)),
+                    ];
+                    push_directed(&mut out, &schema_sexp, &data_sexp, &schema, &text, "(args)", tags);
+                }
+            }
+        }
+    }
+    out
+}
+
 // ---- directed stream: two `%tag` filters on ONE property ------------------------------------------
 
 const TT_SCHEMA: &str = "(schema (types (A obj) (B obj)) (sub (A) (B)) (props (A (id (T Int 0)) (x1 (T Int 1)) (x2 (T Int 1)) (l1 (T Int 1 1)) (l2 (T Int 1 1))) (B (id (T Int 0)) (y (T Int 1)))) (edges (A (e B (T B 1 0) (params))) (B)) (roots (RA A (T A 1 0) (params))))";
@@ -1176,31 +1466,13 @@ fn two_tag_cases() -> Vec<Case> {
                         let text = format!(
                             "{{ RA {{ {tags}id @output(name: \"o0\") {edge} {{ y @filter(op: \"{g1}\", value: [\"%t{p1}\"]) @filter(op: \"{g2}\", value: [\"%t{p2}\"]) @output(name: \"o1\") }} }} }}"
                         );
-                        let Ok(Ok(q)) = guarded(|| compile(&schema.real, &text)) else { continue };
-                        let ir = ir_to_sexp(&q.ir_query);
-                        let hx = Sexp::atom(hex(text.as_bytes()));
-                        let args = Sexp::call("args", vec![]);
                         let same = if p1 == p2 { "same-tag" } else { "different-tags" };
                         let tags_v = vec![
                             "two-tag-filters".to_string(),
                             "nt:two-tag-filters".to_string(),
                             format!("two-tag:{n1}-then-{n2}:{same}"),
                         ];
-                        out.push(Case {
-                            request: Sexp::call("hints", vec![schema_sexp.clone(), hx.clone(), ir.clone(), args.clone()]),
-                            tags: tags_v.clone(),
-                        });
-                        let five = vec![schema_sexp.clone(), data_sexp.clone(), hx, ir, args];
-                        let Ok(Some(Ok(l))) = guarded(|| load5(&five)) else { continue };
-                        if guarded(|| execute(Arc::new(l.p.adapter()), l.q.clone(), &l.args)).is_err() {
-                            continue;
-                        }
-                        let eids: Vec<Sexp> =
-                            direct_points(&l).keys().filter(|e| **e != 0).map(|e| Sexp::atom(e.to_string())).collect();
-                        let mut pa = five.clone();
-                        pa.push(Sexp::call("eids", eids));
-                        out.push(Case { request: Sexp::call("points", pa), tags: tags_v.clone() });
-                        out.push(Case { request: Sexp::call("prune-exec", five), tags: tags_v });
+                        push_directed(&mut out, &schema_sexp, &data_sexp, &schema, &text, "(args)", tags_v);
                     }
                 }
             }
@@ -1283,7 +1555,7 @@ impl Prop for C04 {
         "C04"
     }
     fn rule(&self) -> &'static str {
-        "the worlds of C01 plus tag-only query variants (see C05). Per accepted query one (hints <schema> <query> <ir> <args>) request: static candidates of every property, presence of a dynamic candidate, and mandatory edges (Eids) reported for EVERY Vid by the root ResolveInfo and the NeighborInfos reached from it by edges_with_name(..).destination() (model: Hints.walkInfos). Per accepted (query, dataset) whose plain run does not panic: one (points ... (eids ..)) request — the same report from the hint object of each resolution point that occurs in the run (ResolveInfo of resolve_starting_vertices, ResolveEdgeInfo::destination() of each resolve_neighbors call; model: VInfo.resolve / ofEdge / ofFold) — and one (prune-exec ...) request answered with the rows of the PLAIN run (model: rows of the Lean Interp under the Lean pruneAdapter, i.e. the open global theorem is tested on every case). A directed stream over a fixed small world (nt:two-tag-filters): every ordered pair of tag-filter operators of the priority classes = > one_of > ordering > != on ONE property, the two operands being the same tag or different tags in both textual orders, behind a plain edge and inside a fold; hints / points (which now report the chosen (property, operation, tag) of every dynamic candidate) / prune-exec requests. A grid of (tag-cand <ctx|count> <op> <tag value|nonexistent> <initial>) requests ties candidateOfTag to compute_candidate_from_operation / resolve_fold_specific_field through the verif_dynamic hooks. ORACLE on the implementation: the PruningAdapter (table adapter that, at every resolve_starting_vertices / resolve_neighbors, drops destination vertices whose property values are outside statically_required_property(p) for any property p of the destination type, outside dynamically_required_property(p).resolve(..) for the context, or that lack — recursively through destination() look-ahead — a neighbour along an edge reported by mandatory_edges_with_name) must return exactly the rows of the plain adapter, as lists, in three modes (static+mandatory; +dynamic; +hints claimed for the Vid by look-ahead from the root); a panic inside hint resolution is a failure keyed by its site. Non-trivial (nt:<why>): the pruned run actually dropped a vertex (nt:dropped-static / -mandatory / -dynamic) or resolved a dynamic candidate (nt:dynamic-resolved)."
+        "the worlds of C01 plus tag-only query variants (see C05). Per accepted query one (hints <schema> <query> <ir> <args>) request: static candidates of every property, presence of a dynamic candidate, and mandatory edges (Eids) reported for EVERY Vid by the root ResolveInfo and the NeighborInfos reached from it by edges_with_name(..).destination() (model: Hints.walkInfos). Per accepted (query, dataset) whose plain run does not panic: one (points ... (eids ..)) request — the same report from the hint object of each resolution point that occurs in the run (ResolveInfo of resolve_starting_vertices, ResolveEdgeInfo::destination() of each resolve_neighbors call; model: VInfo.resolve / ofEdge / ofFold) — and one (prune-exec ...) request answered with the rows of the PLAIN run (model: rows of the Lean Interp under the Lean pruneAdapter, i.e. the open global theorem is tested on every case). A directed stream over a fixed small world (nt:two-tag-filters): every ordered pair of tag-filter operators of the priority classes = > one_of > ordering > != on ONE property, the two operands being the same tag or different tags in both textual orders, behind a plain edge and inside a fold; hints / points (which report the chosen (property, operation, tag, initial candidate) of every dynamic candidate) / prune-exec requests; a second directed stream (nt:tag-nullability): a nullable filtered property with null values, operand tags of nullable and non-nullable type (Int/Int!, String/String!, [Int]/[Int!]!), every tag-capable operator incl. != and not_one_of alone and in ordered pairs, behind a plain edge, an @optional edge and inside a fold. A grid of (tag-cand <ctx|count> <op> <tag value|nonexistent> <initial>) requests ties candidateOfTag to compute_candidate_from_operation / resolve_fold_specific_field through the verif_dynamic hooks. ORACLE on the implementation: the PruningAdapter (table adapter that, at every resolve_starting_vertices / resolve_neighbors, drops destination vertices whose property values are outside statically_required_property(p) for any property p of the destination type, outside dynamically_required_property(p).resolve(..) for the context, or that lack — recursively through destination() look-ahead — a neighbour along an edge reported by mandatory_edges_with_name) must return exactly the rows of the plain adapter, as lists, in three modes (static+mandatory; +dynamic; +hints claimed for the Vid by look-ahead from the root); a panic inside hint resolution is a failure keyed by its site. Non-trivial (nt:<why>): the pruned run actually dropped a vertex (nt:dropped-static / -mandatory / -dynamic) or resolved a dynamic candidate (nt:dynamic-resolved)."
     }
     fn generate(&self, tier: Tier, rng: &mut Rng) -> Vec<Case> {
         let (worlds, stats, variants) = hint_worlds(tier, rng);
@@ -1291,6 +1563,7 @@ impl Prop for C04 {
         *self.variants.borrow_mut() = variants;
         let mut out = tag_cand_cases(rng, if tier == Tier::Quick { 300 } else { 3000 });
         out.extend(two_tag_cases());
+        out.extend(nullability_cases());
         for w in &worlds {
             for q in w.accepted() {
                 let tags = feature_tags(&q.gq.features);
